@@ -13,7 +13,9 @@ Inductive oev :=
 | OStop (s : skind)                  (* Disconnect has landed / cancel() returned *)
 | ORet                               (* Disconnect returned *)
 | OPanic                             (* Disconnect panicked *)
-| OStuck.                            (* Disconnect did not return within 5 s *)
+| OStuck                             (* Disconnect did not return within 5 s *)
+| ONoRedial.                         (* an unexpected end was not followed by a dial within wait + 5 s although
+                                        nothing had stopped the client *)
 
 Record c09_case := mkCase {
   k_cfg : config;
@@ -40,6 +42,7 @@ Fixpoint decode_from (c : connect) (i : nat) (t : list oev) : list ev :=
   | ORet :: r => EvDiscReturned :: decode_from c i r
   | OPanic :: r => EvPanic :: decode_from c i r
   | OStuck :: r => decode_from c i r
+  | ONoRedial :: r => decode_from c i r
   end.
 Definition decode (c : connect) (t : list oev) : list ev := decode_from c 0 t.
 
@@ -133,6 +136,10 @@ Definition c09_dialctx_ok (c : c09_case) : bool := negb (existsb is_dead (k_obs 
    itself). The model redials after every unexpected end (C09_redials_until_connected). *)
 Definition c09_stress_ok (c : nat * bool) : bool := negb (snd c).
 
+(* after every unexpected end the client dials again (C09_redials_until_connected) *)
+Definition is_noredial (e : oev) : bool := match e with ONoRedial => true | _ => false end.
+Definition c09_redial_ok (c : c09_case) : bool := negb (existsb is_noredial (k_obs c)).
+
 (* upper bounds (serial family only): delay <= prescribed wait + 250 ms *)
 Fixpoint le_all (slack : Z) (el sp : list Z) : bool :=
   match el, sp with
@@ -149,5 +156,6 @@ Definition c09_connect_violations (cs : list c09_case) := indices_where (fun c =
 Definition c09_stop_violations (cs : list c09_case) := indices_where (fun c => negb (c09_stop_ok c)) cs.
 Definition c09_dialctx_violations (cs : list c09_case) := indices_where (fun c => negb (c09_dialctx_ok c)) cs.
 Definition c09_stress_violations (cs : list (nat * bool)) := indices_where (fun c => negb (c09_stress_ok c)) cs.
+Definition c09_redial_violations (cs : list c09_case) := indices_where (fun c => negb (c09_redial_ok c)) cs.
 Definition c09_trace_mismatches (cs : list c09_case) := indices_where (fun c => negb (c09_trace_ok c)) cs.
 Definition c09_waitub_mismatches (cs : list c09_case) := indices_where (fun c => negb (c09_waitub_ok c)) cs.
